@@ -43,6 +43,7 @@ class Sched(object):
         self.trace_files = trace_files
         self.on_emit = None
         self.abort = False
+        self.stuck = []
 
     def me(self):
         return self.by_ident.get(_thread.get_ident())
@@ -115,13 +116,19 @@ class Sched(object):
     def is_enabled(self, t):
         return t.state == "ready" and (t.guard is None or t.guard())
 
+    STEP_TIMEOUT = 8.0
+
     def step(self, t, timeout=False):
-        """Runs thread t until its next yield point (or its end)."""
+        """Runs thread t until its next yield point (or its end).  A thread that does not come back within STEP_TIMEOUT
+        is blocked in a call the scheduler does not control (a real lock / event / socket): it is marked "stuck", is
+        never scheduled again, and the run goes on with the others (drivers report it as a blocked thread)."""
         assert t.state == "ready"
         t.timed_out = timeout
         self.steps += 1
         t.sem.release()
-        self.back.acquire()
+        if not self.back.acquire(timeout=self.STEP_TIMEOUT):
+            t.state = "stuck"
+            self.stuck.append(t.idx)
 
     def by_idx(self, idx):
         for t in self.threads:
